@@ -143,12 +143,12 @@ Ltac hit :=
   | |- context [bindM (accept ?ts ?pat) ?f (?p, ?mx)] =>
       match goal with
       | Hs : sstream ts p = (?i, ?t) :: ?r, Hk : kmatch (kd ?t) pat = true |- _ =>
-          rewrite (bind_accept_hit ts pat f p mx i t r eq_refl ltac:(lia) Hs Hk ltac:(lim_tac)); cbv beta iota zeta
+          rewrite (bind_accept_hit ts pat f p mx i t r eq_refl ltac:(lia) Hs Hk ltac:(lim_tac)); cbv beta iota zeta; prim
       end
   | |- context [bindM (expect ?ts ?pat) ?f (?p, ?mx)] =>
       match goal with
       | Hs : sstream ts p = (?i, ?t) :: ?r, Hk : kmatch (kd ?t) pat = true |- _ =>
-          rewrite (bind_expect_hit ts pat f p mx i t r eq_refl ltac:(lia) Hs Hk ltac:(lim_tac)); cbv beta iota zeta
+          rewrite (bind_expect_hit ts pat f p mx i t r eq_refl ltac:(lia) Hs Hk ltac:(lim_tac)); cbv beta iota zeta; prim
       end
   end.
 
@@ -157,7 +157,7 @@ Ltac miss :=
   | |- context [bindM (accept ?ts ?pat) ?f (?p, ?mx)] =>
       match goal with
       | Hf : follow ?P mx (sstream ts p) |- _ =>
-          rewrite (bind_accept_miss ts P pat f p mx eq_refl ltac:(lia) Hf ltac:(pmiss)); cbv beta iota zeta
+          rewrite (bind_accept_miss ts P pat f p mx eq_refl ltac:(lia) Hf ltac:(pmiss)); cbv beta iota zeta; prim
       end
   end.
 
@@ -292,7 +292,7 @@ Definition fields_loop_ok (Gd : Z -> Prop) (m : M (list tree)) : Prop :=
   RT (m (p, mx)) mx (fun tl p' => SS p' = s' /\ p <= p' /\ all2v l tl = true).
 
 Definition elseif_loop_ok (Gd : Z -> Prop) (m : M (list tree)) : Prop :=
-  forall p mx n l s', Gd p -> g_elseifs n l (SS p) = Some s' -> CTXL l mx ->
+  forall p mx n l s', Gd p -> g_elseifs n l (SS p) = Some s' -> CTXL l mx -> follow (anyof [pkw "end"%bs]) mx s' ->
   RT (m (p, mx)) mx (fun tl p' => p <= p' /\
        exists l1 l2 n', l = l1 ++ l2 /\ all2v l1 tl = true /\ g_elseifs n' l2 (SS p') = Some s' /\
                         (l2 = [] \/ exists el b, l2 = [el; Lst [PNone; b]])).
